@@ -16,7 +16,7 @@ RULE = ("Hypothesis-generated image manifests: 0-8 image records with all 15 att
         "path, identity duplicates with equal checksums, occasionally emptied cells; built through Images.add in a generated "
         "order, dumped and re-read. Oracle = per-cell multiset of 15-attribute tuples and JSON document computed from the "
         "description + byte-identical second dump. Non-trivial = >=2 images in a cell, or an image in >=2 cells, or a "
-        "unified image; distinct = SHA-1 of the description. The written manifest is then changed through its images' attributes (size, mtime, bootable, volume id) and written again; cells and document are compared with the changed description. Checksum type names come in any spelling.")
+        "unified image; distinct = SHA-1 of the description. The written manifest is then changed through its images' attributes (size, mtime, bootable, volume id) and written again; cells and document are compared with the changed description. Checksum type names come in any spelling. Sub-check agreed-or-refused: records at the border of the documented domain (additional variants on non-unified images, tuples, zero counts, odd paths, odd checksum tables ...) are offered; the library refuses them or they come back as they were.")
 ASSUMPTIONS = ["json (stdlib) is a correct JSON reader", "header version is set to 1.2 explicitly, as callers that build manifests do"]
 FLOORS = {"distinct_nontrivial": 300, "roundtrip:shared-object": 50, "roundtrip:unified": 100, "roundtrip:size>=2^32": 100}
 
@@ -59,8 +59,43 @@ def roundtrip(case):
     return {"nontrivial": imm.is_nontrivial(desc), "labels": imm.labels(desc)}
 
 
+# ---- whatever the library agrees to write ---------------------------------------------------------------------------------
+# The statement starts with "every image the library AGREES to write": records at the border of the documented domain are
+# offered as well.  Whether they are refused is C06's question; if the library writes them, they come back as they were.
+BORDER = [("additional_variants", ["Client"]), ("additional_variants", ["Client", "Server"]), ("additional_variants", ("Client",)), ("unified", True), ("unified", False),
+          ("subvariant", ""), ("volume_id", None), ("implant_md5", None), ("disc_number", 0), ("disc_count", 0), ("size", 1), ("mtime", 0), ("mtime", -1),
+          ("bootable", False), ("bootable", True), ("format", "iso"), ("type", "dvd"), ("checksums", {"md5": ""}), ("checksums", {"SHA256": "ab"}), ("arch", "src"),
+          ("path", "a//b"), ("path", "./a"), ("path", "a/"), ("size", 2 ** 64), ("disc_number", 10 ** 9)]
+border_strategy = st.fixed_dictionaries({"rec": imm.image_record(), "edits": st.lists(st.integers(0, len(BORDER) - 1), min_size=1, max_size=3)})
+
+
+def agreed_case(case):
+    from productmd.images import Images
+    rec = dict(case["rec"])
+    for i in case["edits"]:
+        rec[BORDER[i][0]] = BORDER[i][1]
+    im = Images()
+    im.header.version = "1.2"
+    imm.fill_compose(im.compose, {"id": "F-22-20160622.0", "type": "production", "date": "20160622", "respin": 0, "label": None, "final": False})
+    img = imm.make_image(im, rec)
+    try:
+        im.add("Server", "x86_64", img)
+        text = im.dumps()
+    except (ValueError, TypeError):
+        return {"nontrivial": True, "labels": ["refused"]}
+    again = Images()
+    must("loads-what-was-written", again.loads, text)
+    got = [dict((k, getattr(i2, k)) for k in imm.ATTRS) for i2 in again.images.get("Server", {}).get("x86_64", [])]
+    check(len(got) == 1, "image-lost", lambda: "one image written, %d read back" % len(got))
+    want = dict((k, list(rec[k]) if isinstance(rec[k], tuple) else rec[k]) for k in imm.ATTRS)
+    d = diff(want, got[0])
+    check(d is None, "written-image-differs-after-reload", lambda: "the library agreed to write the image, but it came back changed: %s" % d)
+    return {"nontrivial": True, "labels": ["written"]}
+
+
 def run(ctx):
     ctx.forall("roundtrip", case_strategy, roundtrip, ctx.n(1600, 64000))
+    ctx.forall("agreed-or-refused", border_strategy, agreed_case, ctx.n(1200, 48000))
 
 
-REPLAY = {"roundtrip": roundtrip}
+REPLAY = {"roundtrip": roundtrip, "agreed-or-refused": agreed_case}
